@@ -145,6 +145,23 @@ TEXT_RULE = ("cases are generated from one xoshiro256** state seeded by VERIF_SE
              "non-trivial when its oracle is applicable (spec not n/a) and distinct by its full case line")
 
 PROPS = {
+    "C20": {
+        "binary": True,
+        "no_harness_gen": True,
+        "binary_cases": binchecks.c20_cases,
+        "rule": "histories of open/change/close notifications, $/verif/text probes, foldingRange and unknown requests over five URIs "
+                "(two differing only in scheme, one non-ASCII) are sent to the built binary in ONE pipelined burst (quick: 8 histories of "
+                "60-200 messages, thorough: 24 of up to 1500; >> the channel capacities of 32) under the default multi-threaded runtime, "
+                "with and without the publishDiagnostics capability; the response stream (ids in request order, exactly one each) and "
+                "the document-related projection (responses + diagnostics in order) must equal the in-process SEQUENTIAL execution of the "
+                "same handlers (harness op SEQ); SPECNETTEXT compares the probed server texts with the Lean SeqServer model (C08 text model), "
+                "JUDGENETSCHED runs the Lean process-network model under 6-12 pseudo-random schedules with capacities 1-3 and the "
+                "generated ones and judges the projections against the sequential run. " + TEXT_RULE,
+        "unproved_parts": ["net_refines_seq (for every schedule the response projection and the document-related projection of the process "
+                           "network equal the sequential run; no deadlock) is evaluated on the model under pseudo-random schedules "
+                           "(JUDGENETSCHED), not yet a theorem",
+                           "tokio mpsc FIFO/back-pressure and the multi-threaded runtime are assumptions exercised only by the binary runs"],
+    },
     "C19": {
         "binary": True,
         "binary_cases": binchecks.c19_cases,
